@@ -136,3 +136,22 @@ def constants_of(ctx: Ctx, fi: FuncInfo, kinds=(str,)) -> set:
             if v is not UNKNOWN:
                 add(v)
     return out
+
+
+def with_constants(ctx: Ctx, fi: FuncInfo, node: ast.AST) -> ast.AST:
+    """A copy of `node` in which the module-level names that fold to a number, string or bytes are replaced by that value: `> 100` and
+    `> _EMPTY_REPEAT_CAP` (with `_EMPTY_REPEAT_CAP = 100` at module level) read the same."""
+    import copy
+
+    local = {n.id for n in ast.walk(fi.node) if isinstance(n, ast.Name) and isinstance(n.ctx, ast.Store)} | {a.arg for a in ast.walk(fi.node) if isinstance(a, ast.arg)}
+    folder, module = ctx.folder, fi.module
+
+    class Put(ast.NodeTransformer):
+        def visit_Name(self, n):
+            if isinstance(n.ctx, ast.Load) and n.id not in local:
+                v = folder.fold(module, n)
+                if v is not UNKNOWN and isinstance(v, (int, float, str, bytes)) and not isinstance(v, bool):
+                    return ast.copy_location(ast.Constant(value=v), n)
+            return n
+
+    return Put().visit(copy.deepcopy(node))
